@@ -1097,6 +1097,8 @@ static int parse_int_decimal(struct cat_object *self, int64_t *ret)
                                 ok = 1;
                                 val *= 10;
                                 val += ch - '0';
+                                if (val > (int64_t)INT32_MAX + 1)
+                                        return -1;
                         } else {
                                 return -1;
                         }
@@ -1127,6 +1129,8 @@ static int parse_uint_decimal(struct cat_object *self, uint64_t *ret)
                         ok = 1;
                         val *= 10;
                         val += ch - '0';
+                        if (val > UINT32_MAX)
+                                return -1;
                 } else {
                         return -1;
                 }
@@ -1166,6 +1170,8 @@ static int parse_num_hexadecimal(struct cat_object *self, uint64_t *ret)
                                 state = 3;
                                 val <<= 4;
                                 val += convert_hex_char_to_value(ch);
+                                if (val > UINT32_MAX)
+                                        return -1;
                         } else {
                                 return -1;
                         }
